@@ -7,7 +7,8 @@ use crate::by_family;
 use serde_json::{json, Value};
 
 pub fn auth_small(f: Family, level: u8) -> Vec<Option<Vec<u8>>> {
-	let mut v: Vec<Option<&str>> = vec![None, Some(""), Some("h"), Some("u@h:1"), Some("[::1]")];
+	// "h" / "%68": two spellings of one authority under ==
+	let mut v: Vec<Option<&str>> = vec![None, Some(""), Some("h"), Some("%68"), Some("u@h:1"), Some("[::1]")];
 	if level >= 1 {
 		v.extend([Some("u:p@[v1.a:b]:065535"), Some("a.b:"), Some("@")]);
 	}
@@ -42,7 +43,7 @@ pub fn tails_f(f: Family, level: u8) -> Vec<Option<Vec<u8>>> {
 }
 
 pub fn path_values(f: Family) -> Vec<Vec<u8>> {
-	let mut v: Vec<&str> = vec!["", "/", "a", "/a", "//a", "a:b", "./a:b", "a/../b:c", "/.//a", "1:b", ":", "a/b/c/d/e/f/g", "//", "/a:b"];
+	let mut v: Vec<&str> = vec!["", "/", "a", "%61", "/a", "/%61", "/a/.", "//a", "a:b", "./a:b", "a/../b:c", "/.//a", "1:b", ":", "a/b/c/d/e/f/g", "//", "/a:b"];
 	if f == Family::Iri {
 		v.push("é/é:é");
 	}
@@ -53,7 +54,7 @@ macro_rules! setter_values {
 	($m:ident, $f:expr, $level:expr) => {{
 		use crate::fam::$m::SOp;
 		let mut ops: Vec<SOp> = Vec::new();
-		for s in [None, Some("t"), Some("longer-scheme+1.0")] {
+		for s in [None, Some("t"), Some("s"), Some("S"), Some("longer-scheme+1.0")] {
 			ops.push(SOp::Scheme(s.map(domains::b)));
 		}
 		for a in auth_small($f, $level) {
@@ -62,10 +63,10 @@ macro_rules! setter_values {
 		for p in path_values($f) {
 			ops.push(SOp::Path(p));
 		}
-		for q in [None, Some(""), Some("y"), Some("a:b/c?d=@"), Some("0123456789012345678901234567890123456789012345")] {
+		for q in [None, Some(""), Some("y"), Some("q"), Some("%71"), Some("a:b/c?d=@"), Some("0123456789012345678901234567890123456789012345")] {
 			ops.push(SOp::Query(q.map(domains::b)));
 		}
-		for fr in [None, Some(""), Some("g"), Some("a:/?b@"), Some("0123456789012345678901234567890123456789012345")] {
+		for fr in [None, Some(""), Some("g"), Some("f"), Some("%66"), Some("a:/?b@"), Some("0123456789012345678901234567890123456789012345")] {
 			ops.push(SOp::Fragment(fr.map(domains::b)));
 		}
 		ops
